@@ -112,6 +112,10 @@ def build_error(ex, selector_ty, ctx):
         raise Unsupported('snafu selector ' + selector_ty)
     vname = name[:-5]
     vs = ex.types.variants('errors::Error')
+    if vname not in vs and vname + 'Error' in vs:
+        vname = vname + 'Error'      # snafu drops a trailing "Error" from the variant name when naming the selector
+    if vname not in vs:
+        raise Unsupported('no Error variant for selector ' + name)
     idx = vs.index(vname)
     fields = dict(ctx.fields) if isinstance(ctx, Agg) else {}
     return Enum(idx, {idx: Agg(fields, 'errors::Error::' + vname)}, 'errors::Error')
@@ -289,6 +293,20 @@ def common_summaries():
         if not isinstance(a, Str) or not isinstance(b, Str):
             raise Unsupported(f"string comparison on {a!r} / {b!r} in {fn}")
         return [(st, Bool(a.s == b.s if fn.endswith('eq') else a.s != b.s))]
+
+    @reg(r'^<Option<&str> as PartialEq>::(eq|ne)$|^<Option<(std::string::)?String> as PartialEq>::(eq|ne)$')
+    def opt_str_eq(ex, st, fn, argv):
+        a, b = as_enum(ex, st, deref(ex, st, argv[0])), as_enum(ex, st, deref(ex, st, argv[1]))
+        def inner(o):
+            p = o.payloads.get(1)
+            v = p.fields.get(0) if p is not None else None
+            while isinstance(v, Ref):
+                v = ex.read_path(st, v.cell, v.path)
+            return v
+        va, vb = inner(a), inner(b)
+        both = z3.And(a.disc_bv() == 1, b.disc_bv() == 1)
+        eq = z3.Or(z3.And(a.disc_bv() == 0, b.disc_bv() == 0), z3.And(both, va.s == vb.s) if (va is not None and vb is not None) else z3.BoolVal(False))
+        return [(st, Bool(eq if fn.endswith('eq') else z3.Not(eq)))]
 
     @reg(r'^(std::string::)?String::new$')
     def string_new(ex, st, fn, argv):
